@@ -110,8 +110,34 @@ def write_replay(prop_id, payload) -> str:
     return path
 
 
+def run_corpus(mod, ctx: Ctx):
+    """past failing inputs (minimised replays kept under corpus/<id>/) run first, on the implementation, through the module's own replay;
+    an input that fails again is reported with the features it had (a module that reads its corpus itself - C18 - skips them here)"""
+    import glob, io, contextlib
+    if getattr(mod, "OWN_CORPUS", False) or not hasattr(mod, "replay"):
+        return
+    for f in sorted(glob.glob(os.path.join(VERIF, "corpus", ctx.prop_id, "*.json"))):
+        try:
+            with open(f) as fh:
+                payload = json.load(fh)
+            if payload.get("kind") != "failing-input":
+                continue
+            buf = io.StringIO()
+            with contextlib.redirect_stdout(buf):
+                ok = mod.replay(Ctx(ctx.prop_id, ctx.tier, ctx.seed), payload)
+        except Exception as e:  # noqa
+            ctx.fail(f"corpus input {os.path.basename(f)} could not be replayed: {type(e).__name__}: {e}", {"check": "corpus-replay-error"}, {"file": f})
+            continue
+        ctx.count("corpus_inputs")
+        ctx.evaluations += 1
+        if not ok:
+            ctx.fail(f"corpus input {os.path.basename(f)} fails again: " + payload.get("description", "")[:400] + " | " + buf.getvalue()[-300:],
+                payload.get("features", {"check": "corpus"}), payload.get("input", {}))
+
+
 def run_module(mod, ctx: Ctx):
     """run the property module and the driver; returns list of diffs"""
+    run_corpus(mod, ctx)
     mod.run(ctx)
     diffs = []
     if ctx.lines:
@@ -185,6 +211,7 @@ def main():
         else:
             broken.append("driver executable missing")
             ctx.search_mode = True
+            run_corpus(mod, ctx)
             mod.run(ctx)
     except Exception as e:
         traceback.print_exc()
